@@ -190,4 +190,23 @@ PROPS["C06"] = {
                   "http.Redirect's path cleaning is exercised through the emitted Location, not modelled.",
 }
 
+PROPS["C16"] = {
+    "drivers": [MAIN],
+    "rule": "pairs of requests to 10 endpoints (protected path, skip-auth path, auth-only, start, sign_in, sign_out, callback, userinfo, "
+            "OPTIONS) x 4 configurations (plain; trusted IPs + skip routes + whitelist + nested cookie domains; force-https; insecure cookie + "
+            "skip-provider-button) with reverse-proxy off: the request without forwarding headers against the same request with each of 13 "
+            "forwarding/client-IP headers, all of them, and mixed subsets; the decision projection (status, upstream hit, Location, OAuth "
+            "redirect_uri, cookie names/domains/paths, rd of the sign-in page) must be identical; reverse-proxy on: each client-IP header "
+            "against each configured header; getOAuthRedirectURI compared with the model; non-trivial = all",
+    "assumptions": ["the decision projection drops the fresh random parts of the login URL (state nonce, OIDC nonce, PKCE challenge) and "
+                    "the request id"],
+    "trusted_base": ["the projection function vDecision in the driver"],
+    "level_text": "c16_accessors, c16_redirect and c16_oauth_redirect_uri (2-safety: requests that differ only in X-Forwarded-Host/-Proto/-Uri "
+                  "get the same redirect target and OAuth redirect URI when reverse-proxy is off), c16_bypass_path, c16_trusted_ip_off / "
+                  "c16_trusted_ip_on, c16_cookie_domain are proved on the Gallina models of pkg/requests/util, the redirect director, "
+                  "getOAuthRedirectURI, GetRequestPath and GetClientIP; pairs of real requests are compared on every run.",
+    "level_note": "the models read the forwarding headers through explicit record fields; that the Go code reads them nowhere else is what the "
+                  "pairwise runs on the real proxy check.",
+}
+
 NOT_APPLICABLE = {}
